@@ -42,6 +42,9 @@ type Disk struct {
 
 	Armed   bool
 	Plan    *FaultPlan
+	Multi   []FaultPlan // several faults in one run: each fires at its own armed-call index K (concurrent arms)
+	FiredN  int         // faults fired so far (Multi)
+	OnFire  func(op, kind string) // observer: a Multi fault is about to fire
 	Calls   int    // faultable calls seen while armed
 	Fired   string // description of the fault that fired
 	FiredAt int    // log index of the failed call
@@ -79,6 +82,25 @@ func (d *Disk) Marker(m string, txid int) int {
 func (d *Disk) shouldFail(op string) (bool, string) {
 	if d.Armed && d.Plan == nil {
 		d.ArmedCalls = append(d.ArmedCalls, op)
+	}
+	if d.Armed && d.Multi != nil {
+		k := d.Calls
+		d.Calls++
+		for _, pl := range d.Multi {
+			if pl.K != k || (pl.Only != "" && pl.Only != op) {
+				continue
+			}
+			if d.Veto != nil && d.Veto(op, d.MetaWritten) {
+				return false, ""
+			}
+			d.FiredAfterMeta = d.MetaWritten
+			d.FiredN++
+			if d.OnFire != nil {
+				d.OnFire(op, pl.Kind)
+			}
+			return true, pl.Kind
+		}
+		return false, ""
 	}
 	if !d.Armed || d.Plan == nil || d.Fired != "" {
 		return false, ""
@@ -176,6 +198,9 @@ func (d *Disk) IO(db *bolt.DB, op string, arg int64) error {
 		d.FiredAt = len(d.Log)
 		d.Log = append(d.Log, IOEvent{Kind: op, Arg: arg, Err: kind})
 		return err
+	}
+	if d.Multi != nil && op == "fdatasync" {
+		d.MetaWritten = false // continuous arming: "after the meta write" refers to the current commit only
 	}
 	d.Log = append(d.Log, IOEvent{Kind: op, Arg: arg})
 	if d.AfterEvent != nil {
